@@ -75,8 +75,8 @@ func humanizeFloat(v float64, decimals int) string {
 	var buf [64]byte // Operations on the stack
 	s := strconv.AppendFloat(buf[:0], v, 'f', decimals, 64)
 
-	if v > -1000.0 && v < 1000.0 {
-		// performance escape hatch when no commas
+	if v > -999.0 && v < 999.0 {
+		// performance escape hatch when no commas (999.x may round up to 1,000)
 		return string(s)
 	}
 
